@@ -454,7 +454,7 @@ def engine_replace_all(run, seed: int, ci: int, layout: str, tmp: str, sprp: str
     want['version'], want['revision'] = W1['version'], W1['revision']
     for d in G.view_diffs(want, got):
         run.violation(f'replace-all {layout} sprp={sprp}: re-read differs from the assigned value at {d["path"]}: want '
-                      f'{str(d["want"])[:80]} got {str(d["got"])[:80]}', witness=d, key=c10.classify('content', d),
+                      f'{G.safe(d["want"])} got {G.safe(d["got"])}', witness=d, key=c10.classify('content', d),
                       engine='replace-all', case=case)
     run.count('replace_all_compared')
     run.count('sprp_' + sprp)
@@ -507,7 +507,7 @@ def engine_single(run, seed: int, ci: int, layout: str, tmp: str) -> None:
         d = G.first_diff(before[v], after)
         if d is not None:
             run.violation(f'single {layout} views={views}: view {v} re-read differs from the assigned value at {d["path"]}: want '
-                          f'{str(d["want"])[:80]} got {str(d["got"])[:80]}', witness=dict(d, view=v), key=classify_deep(v, d),
+                          f'{G.safe(d["want"])} got {G.safe(d["got"])}', witness=dict(d, view=v), key=classify_deep(v, d),
                           engine='single', case=case)
         run.count('single_views_compared')
         run.count('view_' + v)
@@ -543,6 +543,8 @@ def classify_deep(view: str, d: dict) -> str:
         return 'chaos-bounds-truncated'
     if last in ('mins', 'maxes') and isinstance(d['want'], float) and d['want'] != int(d['want']) and d['got'] == float(int(d['want'])):
         return 'chaos-bounds-truncated'
+    if view == 'ents' and len(path) > 1:
+        last = path[1] if not path[1].isdigit() else (path[2] if len(path) > 2 else '')
     return f'content-{view}-{last or "length"}'
 
 
